@@ -691,9 +691,12 @@ Inductive iofail_case :=
 (* the extracted shape, in the order of [current_shape_list] *)
 | ShapeCase (l : list (site * sclass))
 (* an encoder run: entry, format, destination implements io.StringWriter, PassThroughPanics,
-   the writes of each event, the kinds of calls the destination saw without failures,
+   the writes of each event, the calls the destination saw without failures (for each call the
+   I/O call site of the library that issued it, as read off the call stack, its kind and its size:
+   a call issued from anywhere but the sites of the shape is observed as SUnknown and can never
+   agree with the model, whose every call is issued at a site of the shape),
    and for each schedule what the implementation did *)
-| WriteCase (e : wentry) (f : wfmt) (sw pass : bool) (evs : list (list lwrite)) (kinds : list wkind)
+| WriteCase (e : wentry) (f : wfmt) (sw pass : bool) (evs : list (list lwrite)) (calls : list (site * wcall))
             (runs : list (wsched * obs))
 (* a decoder run: entry, PassThroughPanics, the document, the primitives the CBE decoder runs on it
    (ignored for CTE), whether the run without failures succeeds, bytes per Read of the source,
@@ -737,14 +740,17 @@ Definition rmodel (e : rentry) (pass : bool) (data : bytes) (script : list prim)
     end in
   (List.rev (rs_tr st), out_of o).
 
+Definition scall_eqb (a b : site * wcall) : bool :=
+  site_eqb (fst a) (fst b) && wkind_eqb (wc_kind (snd a)) (wc_kind (snd b)) && (wc_len (snd a) =? wc_len (snd b)).
+
 Definition pair_eqb (a b : site * sclass) : bool := site_eqb (fst a) (fst b) && sclass_eqb (snd a) (snd b).
 
 Definition iofail_case_ok (c : iofail_case) : bool :=
   match c with
   | ShapeCase l => list_eqb pair_eqb l current_shape_list
-  | WriteCase e f sw pass evs kinds runs =>
+  | WriteCase e f sw pass evs calls runs =>
     let '(tr0, _) := wmodel e f sw pass evs no_wsched in
-    list_eqb wkind_eqb (map (fun ev => wc_kind (we_call ev)) tr0) kinds &&
+    list_eqb scall_eqb (map (fun ev => (we_site ev, we_call ev)) tr0) calls &&
     forallb (fun '(sc, ob) =>
                let '(tr, o) := wmodel e f sw pass evs sc in
                obs_out_eqb o (o_out ob) && (N.of_nat (length tr) =? o_calls ob)) runs
